@@ -28,6 +28,7 @@ SOFTWARE, EVEN IF ADVISED OF THE POSSIBILITY OF SUCH DAMAGE.
 */
 
 #include <assert.h>
+#include <stdbool.h>
 #include <stdarg.h>
 #include <stddef.h>
 #include <yara/arena.h>
@@ -593,8 +594,18 @@ int yr_arena_load_stream(YR_STREAM* stream, YR_ARENA** arena)
 
   YR_ARENA_REF reloc_ref;
 
+  // The relocation list is terminated by a null reference. If the stream ends
+  // before the terminator is found the file was truncated.
+  bool terminated = false;
+
   while (yr_stream_read(&reloc_ref, sizeof(reloc_ref), 1, stream) == 1)
   {
+    if (YR_ARENA_IS_NULL_REF(reloc_ref))
+    {
+      terminated = true;
+      break;
+    }
+
     YR_ARENA_BUFFER* b = &new_arena->buffers[reloc_ref.buffer_id];
 
     if (reloc_ref.buffer_id >= new_arena->num_buffers ||
@@ -617,6 +628,12 @@ int yr_arena_load_stream(YR_STREAM* stream, YR_ARENA** arena)
         yr_arena_make_ptr_relocatable(
             new_arena, reloc_ref.buffer_id, reloc_ref.offset, EOL),
         yr_arena_release(new_arena))
+  }
+
+  if (!terminated)
+  {
+    yr_arena_release(new_arena);
+    return ERROR_CORRUPT_FILE;
   }
 
   *arena = new_arena;
@@ -741,6 +758,13 @@ int yr_arena_save_stream(YR_ARENA* arena, YR_STREAM* stream)
 
     reloc = reloc->next;
   }
+
+  // Terminate the relocation list with a null reference, so that a truncated
+  // file can be detected while loading.
+  YR_ARENA_REF null_ref = YR_ARENA_NULL_REF;
+
+  if (yr_stream_write(&null_ref, sizeof(null_ref), 1, stream) != 1)
+    return ERROR_WRITING_FILE;
 
   return ERROR_SUCCESS;
 }
